@@ -1469,4 +1469,32 @@ pub proof fn lemma_sorted(txs: Seq<GbpTransaction>, a: int, b: int)
     ensures txs[a].date.d() <= txs[b].date.d()
 {}
 
+
+/// the purchases of day x all lie before line n (the list is date-ordered and line n is dated later): the tail contributes nothing
+pub proof fn lemma_free_tail(fc: Map<usize, Decimal>, txs: Seq<GbpTransaction>, n: int, x: int, t: Seq<char>)
+    requires sorted_by_date(txs), 0 <= n <= txs.len(), n < txs.len() ==> txs[n].date.d() > x
+    ensures isum(txs.len() as int, f_free_on(fc, txs, x, t)) == isum(n, f_free_on(fc, txs, x, t))
+    decreases txs.len() - n
+{
+    if n < txs.len() {
+        assert(txs[n].date.d() <= txs[txs.len() - 1].date.d());
+        lemma_free_tail_step(fc, txs, n, txs.len() as int, x, t);
+    }
+}
+pub proof fn lemma_free_tail_step(fc: Map<usize, Decimal>, txs: Seq<GbpTransaction>, n: int, m: int, x: int, t: Seq<char>)
+    requires sorted_by_date(txs), 0 <= n <= m <= txs.len(), n < txs.len() ==> txs[n].date.d() > x
+    ensures isum(m, f_free_on(fc, txs, x, t)) == isum(n, f_free_on(fc, txs, x, t))
+    decreases m - n
+{
+    if m > n { lemma_free_tail_step(fc, txs, n, m - 1, x, t); assert(txs[n].date.d() <= txs[m - 1].date.d()); }
+}
+/// ... and none lies at or before a line dated earlier
+pub proof fn lemma_free_head(fc: Map<usize, Decimal>, txs: Seq<GbpTransaction>, lo: int, x: int, t: Seq<char>)
+    requires sorted_by_date(txs), 0 <= lo <= txs.len(), lo > 0 ==> txs[lo - 1].date.d() < x
+    ensures isum(lo, f_free_on(fc, txs, x, t)) == 0real
+{
+    assert forall|k: int| 0 <= k < lo implies #[trigger] f_free_on(fc, txs, x, t)(k) == 0real by { assert(txs[k].date.d() <= txs[lo - 1].date.d()); }
+    isum_zero(lo, f_free_on(fc, txs, x, t));
+}
+
 } // verus!
